@@ -117,6 +117,10 @@ pub fn check_state<E: Elem>(t: &TooDee<E>, m: &Model<u32>, c: &mut Case, what: &
         return false;
     }
     let mut ok = true;
+    if t.is_empty() != (nc == 0 || nr == 0) || t.size() != (nc, nr) {
+        c.fail("shape:is_empty", format!("{}: is_empty() = {} / size() = {:?} but num_cols/num_rows = ({},{})", what, t.is_empty(), t.size(), nc, nr));
+        ok = false;
+    }
     if t.rows().len() != nr {
         c.fail("shape:rows-len", format!("{}: rows().len() = {} but num_rows() = {}", what, t.rows().len(), nr));
         ok = false;
@@ -405,8 +409,13 @@ pub fn apply<E: Elem>(t: &mut TooDee<E>, m: &mut Model<u32>, act: &Act, c: &mut 
             m.swap_dimensions();
             guarded(|| t.swap_dimensions())
         }
-        "rsv" => guarded(|| t.reserve(a[0])),
-        "rsx" => guarded(|| t.reserve_exact(a[0])),
+        "rsv" | "rsx" => {
+            let r = if act.op == "rsv" { guarded(|| t.reserve(a[0])) } else { guarded(|| t.reserve_exact(a[0])) };
+            if r.is_ok() && !E::ZST && t.capacity() < t.data().len() + a[0] {
+                c.fail("capacity:reserve", format!("{}: capacity {} after reserving {} more than the {} cells", act.enc(), t.capacity(), a[0], t.data().len()));
+            }
+            r
+        }
         "shr" => guarded(|| t.shrink_to_fit()),
         "fill" => {
             for row in m.cells.iter_mut() {
